@@ -134,6 +134,9 @@ def fp_global():
         items.append(("UsePulsesStatement._gates", repr(UsePulsesStatement.__dict__.get("_gates"))))
     except Exception as ex:
         items.append(("usepulses", repr(ex)))
+    # interpreter-wide settings a library call has to leave as it found them
+    items.append(("recursionlimit", sys.getrecursionlimit()))
+    items.append(("int_max_str_digits", getattr(sys, "get_int_max_str_digits", lambda: None)()))
     items.append(("sys.path", tuple(sys.path)))
     items.append(("modules", tuple(sorted(k for k in sys.modules if k.startswith(("jaqalpaq", "sly", "vfscratch"))))))
     return tuple(items)
